@@ -30,3 +30,15 @@ func (d *DataChannel) VerifHaveDataChannel() bool {
 
 	return d.dataChannel != nil
 }
+
+// VerifAttachTransport does what open() does first: it records the SCTP
+// transport the channel runs over (Detach removes the channel from that
+// transport's list). The harness calls handleOpen directly, without open().
+func (d *DataChannel) VerifAttachTransport(t *SCTPTransport) {
+	d.mu.Lock()
+	defer d.mu.Unlock()
+
+	if d.sctpTransport == nil {
+		d.sctpTransport = t
+	}
+}
